@@ -111,3 +111,148 @@ package tars
 //@   ensures [C15] needCheck ==> (!old(c.status) && c.gnow - old(c.lastBlockTime) >= tryTimeInterval && c.lastBlockTime == c.gnow)
 //@   ensures [C15] !old(c.status) ==> (!c.status && !firstTime)
 //@   safety [C15]
+//
+// ------------------------------------------------------------------ client side: request ids (property C08)
+// genRequestID never returns 0 (0 is reserved for server push) and terminates: the loop repeats only when the
+// counter has just wrapped to 0, and the next increment yields 1. (Sequential reading: interference by other
+// goroutines on msgID between the two atomic operations is not modelled.)
+//
+//@ func (*ServantProxy).genRequestID
+//@   modifies msgID
+//@   ensures [C08] result != 0
+//@   ensures [C08] result == msgID
+//@   loop 0 invariant true
+//@   loop 0 decreases (msgID == 0 - 1 ? 1 : 0)
+//@   safety [C08]
+//
+// ------------------------------------------------------------------ client side: delivering a response (property C08)
+// Recv offers a decoded packet only to the reply channel registered under exactly that packet's request id
+// (and only while such an entry exists); a packet with id 0 goes to the push handler and never to a caller.
+//
+//@ func (*AdapterProxy).onPush
+//@   trusted
+//@   noframe
+//
+//@ func (*AdapterProxy).Recv$1
+//@   trusted
+//@   noframe
+//
+//@ func (*AdapterProxy).Recv
+//@   requires c != nil && c.servantProxy != nil && c.servantProxy.proto != nil && c.conf != nil
+//@   noframe
+//@   allocates
+//@   site onPush#0 assert [C08] $1 != nil && $1.IRequestId == 0
+//@   site select#0 assert [C08] packet != nil
+//@   site select#0 assert [C08] packet.IRequestId != 0
+//@   site select#0 assert [C08] $val0 == packet
+//@   site select#0 assert [C08] select(c.resp.dom, ifaceof(packet.IRequestId, "int32")) && $ch0 == ival(select(c.resp.val, ifaceof(packet.IRequestId, "int32")))
+//
+// ------------------------------------------------------------------ client side: one call (properties C08, C09)
+// doInvoke, read sequentially (what other goroutines do to the same proxy in between is not modelled):
+//  * the reply channel is registered under exactly the id of the request that is sent, before it is sent;
+//  * on every return after the in-flight counter was raised, the counter is back to its value before the call
+//    and the pending-reply entry of this request id is gone (deferred cleanup), whatever the outcome;
+//  * a call rejected before that point leaves both untouched.
+//
+//@ pred adpOK(a) = a != nil && a.comm != nil && a.comm.Client != nil && a.point != nil && a.lastFailCount <= a.failCount && a.failCount >= 0 && a.failCount < 2147483647
+//
+//@ func (EndpointManager).SelectAdapterProxy
+//@   trusted
+//@   allocates
+//@   ensures result0 != nil ==> adpOK(result0)
+//
+//@ func (EndpointManager).addAliveEp
+//@   trusted
+//@   allocates
+//
+//@ func (*AdapterProxy).GetPoint
+//@   requires c != nil
+//@   pure
+//@   ensures result == c.point
+//
+// Send hands the encoded request to the transport. Trusted: it changes nothing of the proxy's in-flight
+// counter or of the pending-reply table (the transport cannot name them; it reaches the adapter only through
+// the Recv/ParsePackage callbacks, which run on the receiving goroutine).
+//
+//@ func (*AdapterProxy).Send
+//@   trusted
+//@   requires c != nil && req != nil
+//@   modifies c.sendCount
+//@   allocates
+//
+//@ func (*Message).End
+//@   requires m != nil
+//@   modifies m.EndTime
+//@ func (*Message).Cost
+//@   requires m != nil
+//@   pure
+//
+//@ func (*ServantProxy).doInvoke$1
+//@   requires s != nil && adp != nil && msg != nil && msg.Req != nil
+//@   modifies s.queueLen, adp.resp.dom
+//@   ensures [C09] s.queueLen == s32(old(s.queueLen) - 1)
+//@   ensures [C09] adp.resp.dom == store(old(adp.resp.dom), ifaceof(msg.Req.IRequestId, "int32"), false)
+//
+//@ func (*ServantProxy).doInvoke$2
+//@   trusted
+//@   noframe
+//
+//@ func (*ServantProxy).doInvoke
+//@   requires s != nil && s.manager != nil && msg != nil && msg.Req != nil && ctx != nil
+//@   requires 0 - 2147483648 < s.queueLen && s.queueLen < 2147483647
+//@   let q0 = s.queueLen
+//@   let req0 = msg.Req
+//@   let id0 = msg.Req.IRequestId
+//@   noframe
+//@   allocates
+//@   site Send#0 assert [C08] $1 == msg.Req && msg.Req == req0 && msg.Req.IRequestId == id0
+//@   site Send#0 assert [C08] select(adp.resp.dom, ifaceof(id0, "int32")) && ival(select(adp.resp.val, ifaceof(id0, "int32"))) == readCh
+//@   ensures [C09] s.queueLen == q0
+//@   ensures s.ginv == old(s.ginv) && s.manager == old(s.manager) && ctx.hasdl == old(ctx.hasdl) && msg.Ser == old(msg.Ser)
+//@   site SelectAdapterProxy#0 ghost s.gentered = false
+//@   site Store#0 ghost s.gentered = true
+//@   ensures [C09] s.gentered ==> (msg.Adp != nil && !select(msg.Adp.resp.dom, ifaceof(id0, "int32")))
+//
+// TarsInvoke (C09): every path that calls doInvoke, directly or through a client filter, passes a context
+// that carries a deadline (the caller's own, or the one armed here from the effective timeout, whatever its
+// value); preInvoke and postInvoke are executed in pairs on every return path. Panics of filters or of the
+// call itself are outside this statement (CheckPanic recovers them).
+//
+//@ func (EndpointManager).preInvoke
+//@   trusted
+//@ func (EndpointManager).postInvoke
+//@   trusted
+//@ func (*application).getMiddlewareClientFilter
+//@   trusted
+//@   pure
+// Client filters are user code: trusted to leave the proxy's manager field alone; the ghost bookkeeping of
+// this call (deadline flag of the context, pre/post counter) cannot be touched by real code.
+//
+//@ func dynamic:ClientFilter
+//@   trusted
+//@   formals self, ctx, msg, invoke, timeout
+//@   noframe
+//@   allocates
+//@   ensures ctx.hasdl == old(ctx.hasdl) && msg.Ser == old(msg.Ser) && msg.Ser.ginv == old(msg.Ser.ginv) && msg.Ser.manager == old(msg.Ser.manager)
+//@ func dynamic:reportStatFunc
+//@   trusted
+//@ func (*Message).Init
+//@   requires m != nil
+//@   modifies m.BeginTime
+//
+//@ func (*ServantProxy).TarsInvoke
+//@   requires s != nil && s.manager != nil && s.comm != nil && s.comm.app != nil && ctx != nil && resp != nil
+//@   noframe
+//@   allocates
+//@   site preInvoke#0 ghost s.ginv = s.ginv + 1
+//@   site postInvoke#0 ghost s.ginv = s.ginv - 1
+//@   site doInvoke#0 assert [C09] $1.hasdl
+//@   site dynamic#1 assert [C09] $0.hasdl
+//@   site dynamic#2 assert [C09] $0.hasdl
+//@   site dynamic#3 assert [C09] $0.hasdl
+//@   site dynamic#4 assert [C09] $0.hasdl
+//@   ensures [C09] s.ginv == old(s.ginv)
+//@   loop 0 invariant s != nil && s.manager != nil && msg != nil && msg.Ser == s && ctx.hasdl && s.ginv == old(s.ginv) + 1
+//@   loop 1 invariant s != nil && s.manager != nil && msg != nil && msg.Ser == s && ctx.hasdl && s.ginv == old(s.ginv) + 1
+//@   loop 0 modifies everything
+//@   loop 1 modifies everything
